@@ -4,7 +4,25 @@ NOTES = ("All checks: /venv/bin/python -m harness.run <ID> --tier quick|thorough
 NOT_APPLICABLE = {}
 _MODEL = ("Trusted base: harness/vclock.py (virtual clock; datetime/time rebound inside repid.* modules), Hypothesis 6.168, "
           "the oracle code in harness/checks, TZ=UTC.")
+_SRV = (" Redis and RabbitMQ are in-process server models (harness/fredis.py, harness/famqp.py) written from the public "
+        "command / protocol documentation; redis-py and aiormq wire encoding below the client API is not exercised.")
+_WORKER = ("Generated worker scenarios run by a real repid Worker on a deterministic virtual-time event loop against an independent "
+           "reference model; statistical coverage (no exhaustiveness claimed), sensitivity shown by the mutants in tools/mutant_table.py.")
 CHECKS = [
+ {"property_id": "C02", "level": "exploration", "design_ref": "DESIGN.md §4 C02",
+  "technique": "scenario property-based testing (Hypothesis) with scripted actors against a decision-table reference model, 3 brokers",
+  "text": _WORKER + " Oracle = exact expected sequence of terminal broker calls per delivery (op, retry counter), body execution counts, "
+          "never-after-eager marker, final place, worker survival.",
+  "note": _MODEL + _SRV},
+ {"property_id": "C04", "level": "exploration", "design_ref": "DESIGN.md §4 C04",
+  "technique": "scenario property-based testing of retry chains against a retry-ladder model plus parameter-level checks of _prepare_retry",
+  "text": _WORKER + " Oracle = executions per scheduling, counter seen per attempt, already_tried+1<=N, next_execution_time==now+policy(k) to "
+          "the microsecond, next attempt not before failure+policy(k)-1ms, end state.",
+  "note": _MODEL + _SRV},
+ {"property_id": "C10", "level": "exploration", "design_ref": "DESIGN.md §4 C10",
+  "technique": "scenario property-based testing of messages_limit (bound, self-stop, untouched remainder) and of the run-on-enqueue testing modifier",
+  "text": _WORKER + " Liveness is decided as 'returns within a 45 s virtual horizon'.",
+  "note": _MODEL + _SRV},
  {"property_id": "C19", "level": "exploration", "design_ref": "DESIGN.md §4 C19",
   "technique": "property-based testing (Hypothesis) of pure functions against arithmetic oracles under a pinned clock",
   "text": "Generated search (tens of thousands of inputs per run, boundary classes constructed on purpose: exact period multiples ±1µs, "
